@@ -228,7 +228,7 @@ def probes(chk, w2c2):
 def main(chk):
     quick = chk.tier == 'quick'
     w2c2 = env.build_translator('plain')
-    nh = 40 if quick else 400
+    nh = 120 if quick else 400
     nops = 300 if quick else 2000
     builds = [('gcc-O1', 'gcc', ['-O1'])] + ([] if quick else [('clang-O2', 'clang', ['-O2'])])
 
